@@ -12,9 +12,18 @@ SPEC_DRIVER_MODULES = ["BioCantor.Driver.Main", "BioCantor.Driver.SpecLift"]
 RULE = ("exhaustive: every (placement, child) pair of layouts with <= 2 blocks on a genome of length 4 (quick; 5 "
         "thorough) x all strand pairs for one-level lifts, every chunk window x every layout <= 2 blocks on length 6 "
         "for chunk-down; random hierarchies of depth 1..4 with consistent sequences (each level's sequence is the "
-        "extraction of its placement), random re-chunking. non-trivial = the library answered ok and the child or a "
+        "extraction of its placement), random re-chunking. relocate (liftover_location_to_seq_chunk_parent with real "
+        "sequence, answer = location + extracted letters; every call is preceded by building and discarding the same "
+        "chunk windows of a decoy genome of the same name): exhaustive on a genome of length 8 for a child directly on "
+        "chunk A (every window x strand of A, every non-overlapping child layout <= 2 blocks x strand; thorough: "
+        "zero-length blocks too) and on a genome of length 5 (thorough: 6) for a child on a spliced sequence on chunk "
+        "A (every window x strand, every non-overlapping placement <= 2 blocks x strand, every child layout <= 2 "
+        "blocks x strand), each onto 3 targets: the whole chromosome, the same window on the other strand, an inner "
+        "window; random: genome 40..120, 1..3 blocks per level, depth 2 / depth 3 half each, targets chunk / "
+        "chromosome, a few broken hierarchies (window off the chromosome, child or placement beyond its parent). "
+        "non-trivial = the library answered ok and the child or a "
         "placement has >= 2 blocks or a minus strand is involved; distinct = distinct operation lines")
-EXHAUSTIVE_NOTE = "one-level lifts and chunk windows as described in `rule`"
+EXHAUSTIVE_NOTE = "one-level lifts, chunk windows and the two relocate scopes as described in `rule`"
 TRUSTED = ["Model/Lift.lean is hand-written; tied to parent.py/location.py/interval.py by this run's correspondence",
            "harness/shims.py (io.parser import needs the marshmallow shim)"]
 ASSUMPTIONS = ["hierarchies are built so that each level's sequence equals the extraction of its placement from the level "
@@ -81,7 +90,142 @@ def random_hierarchy(rng, depth, with_seq=True, allow_overlap=False):
     return infos
 
 
+def tight_layouts(max_blocks, length, zero_len=False):
+    """non-overlapping sorted layouts (gap 0 allowed) with 1..max_blocks blocks on [0, length]"""
+    return [l for l in gen_loc.layouts_exhaustive(max_blocks, length, allow_overlap=False)
+            if zero_len or all(e > s for s, e in l)]
+
+
+def enc_auto(strand, blocks):
+    return enc_loc("S" if len(blocks) == 1 else "C", strand, blocks)
+
+
+def rand_tight(rng, length, nmax, p_adjacent=0.25):
+    """1..nmax non-overlapping positive blocks on [0, length]; neighbours may touch"""
+    n = max(1, min(rng.randint(1, nmax), length // 2))
+    while True:
+        cuts = sorted(rng.randint(0, length) for _ in range(2 * n))
+        blocks = [(cuts[i], cuts[i + 1]) for i in range(0, 2 * n, 2)]
+        if all(e > s for s, e in blocks):
+            if rng.random() < p_adjacent or all(blocks[i][1] < blocks[i + 1][0] for i in range(n - 1)):
+                return blocks
+
+
+def relocate_targets(G, a, b, st):
+    other = "-" if st == "+" else "+"
+    inner = (1, G - 1) if G > 2 else (0, G)
+    return ["W", f"{a} {b} {other}", f"{inner[0]} {inner[1]} {other if (a + b) % 2 else st}"]
+
+
+def relocate_cases(run):
+    rng = run.rng
+    thorough = run.tier != "quick"
+
+    def genome(n):
+        while True:
+            g = "".join(rng.choice("ACGT") for _ in range(n))
+            if len(set(g)) == 4 or n < 6:
+                return g
+
+    # ---- exhaustive, child directly on chunk A (depth 2 below the chromosome)
+    G = 8
+    g = genome(G)
+    for a in range(G + 1):
+        for b in range(a + 1, G + 1):
+            kids = tight_layouts(2, b - a, zero_len=thorough)
+            for st in "+-":
+                tg = relocate_targets(G, a, b, st)
+                for c in kids:
+                    for cst in "+-":
+                        for t in tg:
+                            yield f"relocate {g} {a} {b} {st} N {enc_auto(cst, c)} {t}"
+    run.count("relocate:depth2-exhaustive", 1)
+    # ---- exhaustive, child on a spliced sequence on chunk A (depth 3)
+    G = 6 if thorough else 5
+    g = genome(G)
+    for a in range(G + 1):
+        for b in range(a + 1, G + 1):
+            for st in "+-":
+                tg = relocate_targets(G, a, b, st)
+                for tx in tight_layouts(2, b - a):
+                    kids = tight_layouts(2, sum(e - s for s, e in tx))
+                    for txst in "+-":
+                        for c in kids:
+                            for cst in "+-":
+                                for t in tg:
+                                    yield f"relocate {g} {a} {b} {st} {enc_auto(txst, tx)} {enc_auto(cst, c)} {t}"
+    run.count("relocate:depth3-exhaustive", 1)
+    # ---- degenerate inputs, fixed
+    g = genome(8)
+    for t in ("W", "1 7 -", "3 3 +", "2 12 +"):
+        for tx in ("N", "C - 2 0 2 3 5", "S + 1 1"):
+            for c in ("E", "S + 1 1", "C - 2 0 0 2 2", "S - 0 1", "S + 0 9", "C + 2 0 1 4 6"):
+                for w in ("1 7 +", "1 7 -", "4 4 +", "5 11 -"):
+                    yield f"relocate {g} {w} {tx} {c} {t}"
+    # ---- random, larger
+    for _ in range(600 if not thorough else 20000):
+        n = rng.randint(40, 120)
+        g = genome(n)
+        a = rng.randint(0, n - 8)
+        b = rng.randint(a + 6, n)
+        st = rng.choice("+-")
+        la = b - a
+        depth3 = rng.random() < 0.5
+        broken = rng.random() < 0.06
+        if depth3:
+            tx = rand_tight(rng, la, 3)
+            txst = rng.choice("+-")
+            l0 = sum(e - s for s, e in tx)
+            txtok = enc_auto(txst, tx) if rng.random() < 0.8 else enc_loc("C", txst, tx)
+        else:
+            l0, txtok = la, "N"
+        c = rand_tight(rng, l0, 3)
+        if rng.random() < 0.08:                         # zero-length block somewhere
+            z = rng.randint(0, l0)
+            c = sorted(c + [(z, z)])
+        if rng.random() < 0.05 and len(c) > 1:          # self-overlapping child: compared as a multiset
+            s0, e0 = c[0]
+            c = sorted(c + [(s0, min(l0, e0 + 1))])
+            run.count("relocate:self-overlapping-child")
+        cst = rng.choice("+-")
+        ctok = enc_auto(cst, c) if rng.random() < 0.8 else enc_loc("C", cst, c)
+        mode = rng.random()
+        if mode < 0.3:
+            t = "W"
+        elif mode < 0.45:
+            t = f"{a} {b} {'-' if st == '+' else '+'}"
+        elif mode < 0.55:
+            t = f"{a} {b} {st}"
+        else:
+            a2 = rng.randint(0, n - 1)
+            b2 = rng.randint(a2 + 1, n)
+            if rng.random() < 0.5:                       # make sure the windows share something
+                a2 = rng.randint(0, b - 1)
+                b2 = rng.randint(max(a2, a) + 1, n)
+            t = f"{a2} {b2} {rng.choice('+-')}"
+        if broken:
+            k = rng.randrange(4)
+            run.count("relocate:broken")
+            if k == 0:
+                b = n + rng.randint(1, 5)               # chunk A not on the chromosome
+            elif k == 1 and t != "W":
+                p = t.split()
+                t = f"{p[0]} {n + rng.randint(1, 5)} {p[2]}"
+            elif k == 2:
+                ctok = enc_loc("C", cst, c + [(l0, l0 + rng.randint(1, 3))])
+            elif depth3:
+                txtok = enc_loc("C", txst, tx + [(la, la + rng.randint(1, 3))])
+        run.count("relocate:depth3" if depth3 else "relocate:depth2")
+        run.count("relocate:onto-chromosome" if t == "W" else "relocate:onto-chunk")
+        yield f"relocate {g} {a} {b} {st} {txtok} {ctok} {t}"
+
+
 def cases(run):
+    yield from base_cases(run)
+    yield from relocate_cases(run)
+
+
+def base_cases(run):
     rng = run.rng
     g = 4 if run.tier == "quick" else 5
     lay = list(gen_loc.layouts_exhaustive(2, g))
@@ -108,6 +252,8 @@ def cases(run):
                 for we in range(ws + 1, G + 1):
                     for wst in "+-":
                         yield f"chunkdown {enc_loc(k, st, l)} {ws} {we} {wst}"
+    for ws, we, wst in ((0, 3, "+"), (2, 2, "-"), (1, 6, "-")):      # the empty location
+        yield f"chunkdown E {ws} {we} {wst}"
     run.exhaustive = True
     # ---- random hierarchies
     n = 600 if run.tier == "quick" else 20000
